@@ -161,6 +161,16 @@ def concurrent(rep):
         elif res.violated != expect:
             raise tlc.TlcError("vacuity self-test: the unlocked counter does not violate UniqueConc")
     rep.notes["unlocked_counter_violates"] = "UniqueConc"
+    # unbounded part (Apalache): IndInv is inductive for arbitrary counter values and any number of generations per thread
+    from engine import apalache
+    steps = [("IndInit", "IndInv", 1, "NoError")]
+    if rep.tier == "thorough":
+        steps += [("Init", "IndInv", 0, "NoError"), ("IndInit", "UniqueConc", 0, "NoError"), ("IndInit", "NeverReads", 0, "Error")]
+    for init, inv, length, want in steps:
+        got, secs = apalache.check("Apa_SessionConc", init, inv, length)
+        if got != want:
+            raise tlc.TlcError(f"Apalache: Apa_SessionConc --init={init} --inv={inv} --length={length}: {got} (expected {want})")
+        rep.notes.setdefault("apalache", []).append({"init": init, "inv": inv, "length": length, "outcome": got, "wall_s": round(secs, 1)})
 
     def gen_job(route, ident):
         def job():
